@@ -107,8 +107,20 @@ fn post_fault_oracle(w: &mut W, op: Op, kind: Cb, pre: &BTreeMap<u32, u32>, pre_
     };
     let log = hasher::cb_log();
     let allowed: Option<BTreeSet<u32>> = match kind {
-        // a panicking Hash may drop elements being relocated / rehashed
-        Cb::Hash => None,
+        // a panicking Hash may drop elements being relocated: whole-table rehashes (shrink_to) may lose
+        // any number; clone()/clone_from()/from_iter() hash into another table and must leave the source
+        // alone; every other call relocates one element at a time, so at most the one in flight is lost
+        Cb::Hash => match op.k {
+            OpK::ShrinkTo | OpK::ShrinkToFit => None,
+            OpK::CloneReplace | OpK::CloneFromInto | OpK::FromIter => Some(BTreeSet::new()),
+            _ => {
+                let mut s: BTreeSet<u32> = log.iter().filter(|e| e.1).map(|e| e.0).collect();
+                if lost.len() <= 1 + s.len() {
+                    s.extend(lost.iter().copied());
+                }
+                Some(s)
+            }
+        },
         Cb::Closure => {
             let mut s: BTreeSet<u32> = log.iter().filter(|e| e.1).map(|e| e.0).collect();
             if let Some(l) = log.last() {
